@@ -412,7 +412,13 @@ class Analyzer:
         rule = 'BND1' if kind == 'cur' else 'BND2'
         av = self.avail_of(pn, st)
         term = '%s%s' % (('%s.cur' % key) if kind == 'cur' else key, ('+%d' % c) if c else '')
-        if isinstance(idx, int):
+        if isinstance(idx, int) and idx + c < 0:
+            # a byte in front of the pointer: so many bytes of the input must lie between its start and the pointer
+            bh = self.beh_of((kind, key, 0), st)
+            ok = bh is not None and bh >= -(idx + c) and av is not None and av[0] >= idx + c + 1
+            self.site(rule, node, 'read %s needs %d byte(s) of the input in front of %s' % (expr_str(node)[:50], -(idx + c), term.split('+')[0]), ok,
+                      'proved %s byte(s) in front of it' % (bh if bh is not None else 'no'), 'read:%s[%d]' % (term, idx))
+        elif isinstance(idx, int):
             need = idx + 1
             ok = av is not None and av[0] >= need and idx + c >= 0
             self.site(rule, node, 'read %s needs %d readable byte(s) at %s' % (expr_str(node)[:50], need, term), ok,
@@ -439,6 +445,14 @@ class Analyzer:
             else:
                 why = 'index in [%s,%s], avail >= %s' % (iv[0] if iv[0] > NEG else '-inf', iv[1] if iv[1] < POS else 'inf',
                                                         av[0] if av and av[0] > NEG else 'nothing')
+            if not ok and iv[1] < 0 and iv[0] == NEG:
+                # a walk back over the input by a growing distance, ended by what the bytes are (the byte that differs is the
+                # sentinel): whether it stays inside the input is a fact about the contents, which this analysis does not have
+                self.__dict__.setdefault('unmodelled_nodes', set()).add(node.get('id'))
+                self.__dict__.setdefault('unmodelled', []).append(
+                    '%s: %s reads ever further in front of %s; what stops the walk is the value of a byte, not a bound this analysis '
+                    'can compare with' % (self.fn.where(node), expr_str(node)[:50], term))
+                return
             self.site(rule, node, 'read %s at a variable index of %s' % (expr_str(node)[:50], term), ok, why,
                       'read:%s[%s]' % (term, expr_str(ix)))
 
@@ -568,8 +582,69 @@ class Analyzer:
                         pass   # killed at the call that receives the address
         return st
 
+    # ---- bytes behind a pointer: 'beh:<p>' in st.ptr holds (k, POS) when at least k bytes of the input lie in front of p ----
+    def beh_get(self, st, name):
+        v = st.ptr.get('beh:' + name)
+        return v[0] if v is not None and v[0] > NEG else None
+
+    def beh_set(self, st, name, k):
+        if k is None or k < 0:
+            st.ptr.pop('beh:' + name, None)
+        else:
+            st.ptr['beh:' + name] = (k, POS)
+
+    def beh_of(self, pn, st):
+        """lower bound of the number of input bytes in front of a normalised pointer, or None"""
+        if pn is None:
+            return None
+        kind, key, c = pn
+        if kind == 'content':
+            k = c
+        elif kind == 'cur':
+            off = st.off.get(key)
+            k = (off[0] if off is not None and off[0] > NEG else 0) + c
+        elif kind == 'ptr':
+            b = self.beh_get(st, key)
+            if b is None:
+                return None
+            k = b + c
+        else:
+            return None
+        return k if k >= 0 else None
+
+    def scan_call(self, r0, st):
+        """memchr(p, c, n) with n no larger than what is readable at p: the normalised p, else None"""
+        if r0.get('k') != 'call' or callee_name(r0) not in ('memchr', '__builtin_memchr') or len(r0['args']) != 3:
+            return None
+        pn = self.ptr_norm(r0['args'][0])
+        if pn is None or pn[0] not in ('ptr', 'cur'):
+            return None
+        n = strip_casts(r0['args'][2])
+        if n.get('k') == 'bin' and n['op'] == '-' and self.side(n['l'], st)[0] == 'end' and self.ptr_norm(n['r']) == pn:
+            return pn                   # everything up to the end of the input
+        av = self.avail_of(pn, st)
+        iv = self.ieval(n, st)
+        if av is not None and av[0] > NEG and iv[1] < POS and iv[1] <= av[0]:
+            return pn
+        return None
+
     def assign_ptr(self, st, name, rhs):
+        r0 = strip_casts(rhs)
+        scanned = self.scan_call(r0, st)
+        beh = self.beh_of(scanned if scanned is not None else self.ptr_norm(rhs), st)
+        root = self.rel_of(scanned, st) if scanned is not None else None
+        self._assign_ptr(st, name, rhs)
+        if scanned is not None:
+            # NULL, or the position of a byte of the input at or behind p: one byte is readable there
+            self.tracked_ptrs.add(name)
+            st.ptr[name] = (1, POS)
+            if root is not None and root[0] != name:
+                st.rel[name] = (root[0], root[1], POS)
+        self.beh_set(st, name, beh)
+
+    def _assign_ptr(self, st, name, rhs):
         st.ptr.pop(name, None)
+        st.ptr.pop('beh:' + name, None)
         self.kill_term(st, 'ptr', name)
         r0 = strip_casts(rhs)
         if r0.get('k') == 'call' and callee_name(r0) in self.reqs.get('@ret', {}):
@@ -731,6 +806,13 @@ class Analyzer:
                         st.ptr[l['n']] = _add(st.ptr[l['n']], -(c if op == '+=' else -c))
                     else:
                         st.ptr.pop(l['n'], None)
+                    b_ = self.beh_get(st, l['n'])
+                    if b_ is not None and op in ('+=', '-='):
+                        iv_ = self.ieval(a['r'], st) if c is None else (c, c)
+                        d_ = iv_[0] if op == '+=' else (-iv_[1] if iv_[1] < POS else NEG)
+                        self.beh_set(st, l['n'], b_ + d_ if d_ > NEG else None)
+                    else:
+                        self.beh_set(st, l['n'], None)
             elif t['c'] == 'int':
                 if op == '=':
                     iv = self.ieval(a['r'], st)
@@ -799,6 +881,9 @@ class Analyzer:
                     del st.rel[k]
                 if t['n'] in st.ptr:
                     st.ptr[t['n']] = _add(st.ptr[t['n']], -ev.delta)
+                b_ = self.beh_get(st, t['n'])
+                if b_ is not None:
+                    self.beh_set(st, t['n'], b_ + ev.delta)
             elif ty['c'] == 'int':
                 old = st.int.get(t['d'])
                 moved = _add(st.ptr[self.idx_key(t['d'])], -ev.delta) if (t['d'] in self.abs_index and self.idx_key(t['d']) in st.ptr) else None
@@ -923,6 +1008,7 @@ class Analyzer:
                     ty = self.u.ty(tgt.get('ty0', tgt['ty']))
                     if ty['c'] == 'ptr':
                         st.ptr.pop(tgt['n'], None)
+                        st.ptr.pop('beh:' + tgt['n'], None)
                         self.kill_term(st, 'ptr', tgt['n'])
                     elif ty['c'] == 'int':
                         self.kill_var(st, tgt['d'])
@@ -1383,6 +1469,12 @@ class Analyzer:
                     return st
             aq = self.avail_of(b[1], st)
             ap = self.avail_of(a[1], st)
+            # a < b: b lies at least one byte further into the input than a does
+            ba = self.beh_of(a[1], st)
+            if ba is not None and op in ('<', '<=', '==') and b[1][0] == 'ptr':
+                want = ba + (1 if op == '<' else 0) - b[1][2]
+                if want >= 0 and (self.beh_get(st, b[1][1]) or 0) <= want:
+                    self.beh_set(st, b[1][1], want)
             if op == '<' and aq is not None and aq[0] > NEG:
                 if not self.set_avail(st, a[1], lo=aq[0] + 1):
                     return None
@@ -1711,11 +1803,13 @@ def bnd_parse(units, R):
     _check_returns_arg(u, R)
     _check_postconditions(u, reqs, R)
     nreads = 0
+    unmodelled = []
     for fn in fam:
         cps = _cursor_params(u, fn, rec)
         assume = {name: reqs[fn.name].get(i, 0) for (i, name, _k) in cps}
         an = Analyzer(u, fn, assume, reqs)
         sites = an.run()
+        unmodelled += an.__dict__.get('unmodelled', [])
         for s in sites:
             if s.rule in ('BND1', 'BND2'):
                 nreads += 1
@@ -1723,7 +1817,7 @@ def bnd_parse(units, R):
         # nothing read from the input may escape the analysis: a load through a pointer that was derived from the input
         # (B->content, the cursor, another such pointer) but for which no obligation was generated means the analysis does
         # not follow that pointer - say so instead of passing
-        judged = {s.node.get('id') for s in sites}
+        judged = {s.node.get('id') for s in sites} | an.__dict__.get('unmodelled_nodes', set())
         derived = set()
         changed = True
         while changed:
@@ -1761,6 +1855,8 @@ def bnd_parse(units, R):
             R.note('BND: %s assumes %d readable byte(s) at %s on entry (checked at every call site)' % (fn.name, k, name))
     R.floor('BND1', 'functions in the parse family', len(fam), 9)
     R.floor('BND1', 'input reads and call-site requirements', nreads, 35)
+    if unmodelled:
+        raise AnalysisBroken('BND: ' + unmodelled[0])
     return reqs
 
 
